@@ -16,6 +16,7 @@
 package main
 
 import (
+	"context"
 	"errors"
 	"fmt"
 	"sort"
@@ -33,6 +34,12 @@ import (
 // notClientOps are the methods of the service that are not client operations (property text:
 // "Replicate is not a client op").
 var notClientOps = map[string]bool{"Replicate": true}
+
+// requesters using the unsigned authentication path
+const (
+	mtlsNode  = "unsigned-from-mtls-authenticated-container-node"
+	mtlsOther = "unsigned-from-mtls-authenticated-other-peer"
+)
 
 type tcase struct {
 	Method    string
@@ -116,15 +123,27 @@ func run(c tcase, maintenance bool) (outcome, error) {
 	if err != nil {
 		return outcome{}, err
 	}
-	if err := sw.SignAllScheme(reqs, p.Signer, c.Scheme); err != nil {
-		return outcome{}, err
+	ctx := context.Background()
+	switch c.Requester {
+	case mtlsNode, mtlsOther:
+		// the other authentication path the server accepts: NO verification header, TTL 1, gRPC peer
+		// authenticated by mutual TLS (a container node / some other key)
+		label := sw.RemoteA
+		if c.Requester == mtlsOther {
+			label = sw.Stranger
+		}
+		ctx = sw.PeerContext(label)
+	default:
+		if err := sw.SignAllScheme(reqs, p.Signer, c.Scheme); err != nil {
+			return outcome{}, err
+		}
 	}
 	before, err := sw.SnapTree(w.Dir)
 	if err != nil {
 		return outcome{}, err
 	}
 	w.Rec.Reset()
-	res, herr := sw.Invoke(w.Srv, sw.ObjectServiceIface, c.Method, reqs)
+	res, herr := sw.InvokeCtx(ctx, w.Srv, sw.ObjectServiceIface, c.Method, reqs)
 	if herr != nil {
 		return outcome{}, herr
 	}
@@ -186,6 +205,9 @@ func main() {
 		cls := ""
 		if c.Shape != "" {
 			cls = "[" + c.Shape + "]"
+		}
+		if c.Requester == mtlsNode || c.Requester == mtlsOther {
+			cls += "[unsigned-ttl1-mtls-peer]"
 		}
 		unimplemented := ctl.Status == "grpc:Unimplemented" && len(ctl.Effects) == 0
 		midStream := c.Shape == "maintenance-starts-before-chunk"
@@ -326,6 +348,12 @@ func main() {
 					}
 				}
 			}
+			// unsigned requests are accepted with TTL 1 from mutually authenticated peers only
+			for _, who := range []string{mtlsNode, mtlsOther} {
+				for _, in := range []bool{true, false} {
+					cases = append(cases, tcase{Method: m, Shape: sh, Requester: who, TTL: 1, LocalIn: in})
+				}
+			}
 		}
 	}
 	enumx.Parallel(len(cases), func(i int) { check(cases[i]) })
@@ -351,7 +379,7 @@ func main() {
 	r.Set("controls_maintenance_off", controls)
 	r.Set("cases_without_effect_even_without_maintenance", vacuous)
 	r.Set("nontrivial_cases_per_method", perMethod)
-	r.Rule("every exported method of protoobject.ObjectServiceServer (reflection) except Replicate x request shape x requester {owner,stranger} x TTL {1,2} x local node {inside,outside} the container; non-trivial = the same request with maintenance off produced a storage or network effect (checked, otherwise harness error); distinct = distinct case tuple")
+	r.Rule("every exported method of protoobject.ObjectServiceServer (reflection) except Replicate x request shape x authentication path {signed by owner / stranger with TTL 1,2; NO verification header + TTL 1 + gRPC peer authenticated by mutual TLS as a container node / as another key} x local node {inside,outside} the container; non-trivial = the same request with maintenance off produced a storage or network effect (checked, otherwise harness error); distinct = distinct case tuple")
 	r.Assume("effects are observed at the engine method entries (overlay hook, pure recorder), at the client-constructor / replication transport (network) and as byte-level changes of the engine directory",
 		"FS chain reads (container, netmap, maintenance flag) are not counted as touching local storage or other nodes",
 		"opening the internal put streamer (Handlers.Put) before the first message is verified is an allocation only and is not counted as an effect",
